@@ -79,7 +79,8 @@ func recovery(logger *slog.Logger, c Context, handle RecoveryFunc) {
 				if idx < 0 {
 					continue
 				}
-				if slices.Contains(blacklistedHeader, string(header[:idx])) {
+				// Header names are case-insensitive and may be stored non-canonically in the request.
+				if slices.ContainsFunc(blacklistedHeader, func(h string) bool { return strings.EqualFold(h, string(header[:idx])) }) {
 					sb.Write(header[:idx])
 					sb.WriteString(": <redacted>")
 					continue
